@@ -10,7 +10,7 @@ from __future__ import annotations
 
 import ast
 
-from ..core import AnalysisError, FuncNode, call_name, calls_in, const_str, kwarg, last_attr, src
+from ..core import AnalysisError, FuncNode, call_name, calls_in, const_str, kwarg, last_attr, names_in, src
 from .C03 import reader_guard
 
 EXPLANATION = (
@@ -20,7 +20,9 @@ EXPLANATION = (
     "make the destination's cache serve what the source would refuse (Evaluation: absence is a miss; Handle/HandleEdge: absence makes handles invalid; "
     "CallSubtreeTask: allowed only because _get_call_node rejects empty recorded sets -- re-checked here); C23.3 every foreign-key column of a "
     "serialized model is yielded by the matching child-edge walker; _model_pks and the serializer table list the same five models; "
-    "C23.4 put_records filters on has_records before adding and Tag.is_current is recomputed after import."
+    "C23.4 put_records filters on has_records before adding and Tag.is_current is recomputed after import; "
+    "C23.5 every *_child_edges walker iterates filter_in(<session.query(...) with only row-preserving methods (query, outerjoin)>, owner column, ids) "
+    "over all the ids it is given and yields unconditionally, except for NULL skips of the yielded id and seen-set de-duplication."
 )
 
 DB = "redun/backends/db/__init__.py"
@@ -200,6 +202,68 @@ def run(ctx):
             m2 = {src(k): src(v) for k, v in zip(n.keys, n.values)}
     r3.check(m2 == walkers, f"{db.rel}:RedunBackendDb.get_child_record_ids:table", f"model -> walker table is {m2}", db.rel, gc.lineno)
     r3.check("get_tag_entity_child_edges(session, all_ids)" in src(gc), f"{db.rel}:RedunBackendDb.get_child_record_ids:tags", "tags of the walked entities are not included", db.rel, gc.lineno)
+
+    r5 = ctx.rule("C23.5", "walker queries are exhaustive: no row filter besides the owner-id IN (...) chunking, no conditional yield besides NULL/duplicate skipping", floor=10)
+    wfuncs = [(q, f) for q, f in db.funcs.items() if "." not in q and q.endswith("_child_edges")]
+    if len(wfuncs) < 6:
+        raise AnalysisError(f"only {len(wfuncs)} *_child_edges walkers found (expected >= 6)", "child_edges")
+    ROW_PRESERVING = {"query", "outerjoin"}
+    for wn, wf in wfuncs:
+        ids_param = wf.args.args[1].arg if len(wf.args.args) > 1 else None
+        local_q = {}
+        for n in ast.walk(wf):
+            if isinstance(n, ast.Assign) and len(n.targets) == 1 and isinstance(n.targets[0], ast.Name) and isinstance(n.value, ast.Call):
+                local_q.setdefault(n.targets[0].id, []).append(n.value)
+        loops = [n for n in ast.walk(wf) if isinstance(n, ast.For)]
+        if not loops:
+            raise AnalysisError(f"{wn}: no loop over a query (unknown idiom)", wn)
+        for lp in loops:
+            it = lp.iter
+            if not (isinstance(it, ast.Call) and call_name(it) == "filter_in" and len(it.args) == 3):
+                raise AnalysisError(f"{wn}: loop at line {lp.lineno} does not iterate filter_in(query, column, ids) (unknown idiom)", wn)
+            qexprs = [it.args[0]]
+            if isinstance(it.args[0], ast.Name):
+                qexprs = local_q.get(it.args[0].id, [])
+                if len(qexprs) != 1:
+                    raise AnalysisError(f"{wn}: query variable {src(it.args[0])} is not assigned exactly once", wn)
+            chain = []
+            e = qexprs[0]
+            while isinstance(e, ast.Call) and isinstance(e.func, ast.Attribute):
+                chain.append(e.func.attr)
+                e = e.func.value
+            bad = [m for m in chain if m not in ROW_PRESERVING]
+            r5.check(
+                not bad and "query" in chain,
+                f"{db.rel}:{wn}:{src(it.args[1])}:rows",
+                f"the query walked by {wn} over {src(it.args[1])} applies {bad or 'no session.query'}: rows of the owner that the restriction drops (e.g. superseded tags, whose only link to the execution is this edge) are not transferred",
+                db.rel,
+                lp.lineno,
+            )
+            r5.check(src(it.args[2]) == ids_param, f"{db.rel}:{wn}:{src(it.args[1])}:ids", f"{wn} walks `{src(it.args[2])}` instead of all ids it was given", db.rel, lp.lineno)
+            loopvars = set(names_in(lp.target))
+            for y in ast.walk(lp):
+                if not isinstance(y, ast.Yield):
+                    continue
+                yvar = src(y.value.elts[2]) if isinstance(y.value, ast.Tuple) and len(y.value.elts) == 3 else None
+                p = db.parent.get(y)
+                while p is not None and p is not lp:
+                    if isinstance(p, (ast.If, ast.While, ast.Try, ast.With)) and not isinstance(p, ast.If):
+                        raise AnalysisError(f"{wn}: yield under {type(p).__name__} (unknown idiom)", wn)
+                    if isinstance(p, ast.If):
+                        t = p.test
+                        in_body = any(y is z for b in p.body for z in ast.walk(b))
+                        null_skip = in_body and src(t) in (yvar, f"{yvar} is not None")
+                        dedup = in_body and isinstance(t, ast.Compare) and len(t.ops) == 1 and isinstance(t.ops[0], ast.NotIn) and isinstance(t.left, ast.Name) and t.left.id in loopvars and isinstance(t.comparators[0], ast.Name) and any(
+                            isinstance(c, ast.Call) and src(c.func) == f"{src(t.comparators[0])}.add" and c.args and src(c.args[0]) == src(t.left) for b in p.body for c in ast.walk(b)
+                        )
+                        r5.check(
+                            null_skip or dedup,
+                            f"{db.rel}:{wn}:{yvar}:conditional-yield",
+                            f"{wn} yields `{yvar}` only when `{src(t)}`: this is neither a NULL skip nor a seen-set de-duplication, so some referenced records are not transferred",
+                            db.rel,
+                            p.lineno,
+                        )
+                    p = db.parent.get(p)
 
     r4 = ctx.rule("C23.4", "repeating a transfer adds nothing; tag currency recomputed", floor=3)
     pr = db.func("RedunBackendDb.put_records")
